@@ -239,3 +239,324 @@ Theorem C12_kfl_complete : forall c Sc K eps, (1 <= k_L c)%nat -> 0 <= eps ->
   kfl_feasible c Sc K eps -> assert_kfl c Sc K eps = true.
 Proof. exact kfl_complete. Qed.
 Print Assumptions C12_kfl_complete.
+
+(* ====================================================================== *)
+(* What a passing assert MEANS for the layer FUNCTION (proofs in
+   Proofs/AssertMeaning.v).  The theorems above tie the verdict to predicates
+   on the WEIGHTS; the ones below compose them with the forward-pass models of
+   the other properties (module aliases: MLI = Model/LatticeInterp.v, PLH =
+   Proofs/LatticeHyper.v [C02]; MK = Model/KFL.v, PK = Proofs/KFL.v [C07], PMK =
+   Proofs/PremadeKFL.v [C03]; MLE / PLE = Model / Proofs LinearEval.v [C20];
+   MPE / PPE = Model / Proofs PWLEval.v, MCE = Model/CategoricalEval.v [C05]).
+   eps = 0 unless stated: with eps > 0 each kernel step may be negative by eps,
+   so only the bounds have an "up to eps" function-level version here.
+   ====================================================================== *)
+From TFL Require Import Proofs.AssertMeaning.
+
+(* ---------------- Lattice ---------------- *)
+(* Kmat[vertex][unit] is the kernel matrix the layer stores; the assert sees its
+   row-major flattening reshaped to sizes ++ [units].  A passing assert (eps = 0)
+   means: the tensor is C01-feasible, and for BOTH interpolation schemes (sc),
+   both input forms (tensor), clip_inputs on or off, EVERY unit u the output is
+   non-decreasing in every monotone input d for every pair of admissible points
+   (in range, or anything when clipped: PLH.ok_input) and lies inside
+   [output_min, output_max]. *)
+Theorem C12_lattice_assert_implies_monotone_function : forall c Kmat sc tensor clip u,
+  cfg_valid c -> length Kmat = MLI.prodn (l_sizes c) ->
+  Forall (fun r => length r = l_units c) Kmat -> (u < l_units c)%nat ->
+  assert_lattice (la_of c) (of_list (l_shape c) (concat Kmat)) 0 = true ->
+  feasible_kernel c (of_list (l_shape c) (concat Kmat)) /\
+  (forall d x yd, In d (mono_dims (l_monos c)) ->
+     PLH.ok_input clip (l_sizes c) x -> PLH.ok_input clip (l_sizes c) (set_nth d yd x) -> nth d x 0 <= yd ->
+     MLI.unit_fn sc tensor clip (l_units c) (l_sizes c) Kmat u x <=
+     MLI.unit_fn sc tensor clip (l_units c) (l_sizes c) Kmat u (set_nth d yd x)) /\
+  (l_sizes c <> [] -> forall x, PLH.ok_input clip (l_sizes c) x ->
+     (forall lo, l_min c = Some lo -> lo <= MLI.unit_fn sc tensor clip (l_units c) (l_sizes c) Kmat u x) /\
+     (forall hi, l_max c = Some hi -> MLI.unit_fn sc tensor clip (l_units c) (l_sizes c) Kmat u x <= hi)).
+Proof. exact lattice_assert_la_of_meaning. Qed.
+Print Assumptions C12_lattice_assert_implies_monotone_function.
+
+(* the same for ANY assert configuration (dominance / joint monotonicity
+   included), without going through C01 *)
+Theorem C12_lattice_assert_implies_monotone_function_any_config : forall c Kmat sc tensor clip u,
+  la_ok c -> PLH.sizes_ok (a_sizes c) -> length Kmat = MLI.prodn (a_sizes c) ->
+  Forall (fun r => length r = a_units c) Kmat -> (u < a_units c)%nat ->
+  assert_lattice_flat c (concat Kmat) 0 = true ->
+  (forall d x yd, (d < length (a_monos c))%nat -> nth d (a_monos c) 0%Z = 1%Z ->
+     PLH.ok_input clip (a_sizes c) x -> PLH.ok_input clip (a_sizes c) (set_nth d yd x) -> nth d x 0 <= yd ->
+     MLI.unit_fn sc tensor clip (a_units c) (a_sizes c) Kmat u x <=
+     MLI.unit_fn sc tensor clip (a_units c) (a_sizes c) Kmat u (set_nth d yd x)) /\
+  (a_sizes c <> [] -> forall x, PLH.ok_input clip (a_sizes c) x ->
+     (forall lo, a_min c = Some lo -> lo <= MLI.unit_fn sc tensor clip (a_units c) (a_sizes c) Kmat u x) /\
+     (forall hi, a_max c = Some hi -> MLI.unit_fn sc tensor clip (a_units c) (a_sizes c) Kmat u x <= hi)).
+Proof. exact lattice_assert_meaning. Qed.
+Print Assumptions C12_lattice_assert_implies_monotone_function_any_config.
+
+(* Edgeworth trust (main m, conditional cd, direction +): the effect of raising
+   the main input is non-decreasing in the conditional input, every pair of
+   admissible points (hypercube interpolation: C02_hyper_edgeworth_effect) *)
+Theorem C12_lattice_assert_implies_edgeworth_effect : forall c Kmat tensor clip u m cd x ym yc,
+  la_ok c -> PLH.sizes_ok (a_sizes c) -> Forall (fun r => length r = a_units c) Kmat -> (u < a_units c)%nat ->
+  assert_lattice_flat c (concat Kmat) 0 = true -> In (m, cd, 1%Z) (a_edge c) ->
+  (m < length (a_sizes c))%nat -> (cd < length (a_sizes c))%nat ->
+  PLH.ok_input clip (a_sizes c) x -> PLH.ok_input clip (a_sizes c) (set_nth m ym x) ->
+  PLH.ok_input clip (a_sizes c) (set_nth cd yc x) -> PLH.ok_input clip (a_sizes c) (set_nth m ym (set_nth cd yc x)) ->
+  nth m x 0 <= ym -> nth cd x 0 <= yc ->
+  MLI.unit_fn MLI.Hypercube tensor clip (a_units c) (a_sizes c) Kmat u (set_nth m ym x) -
+  MLI.unit_fn MLI.Hypercube tensor clip (a_units c) (a_sizes c) Kmat u x <=
+  MLI.unit_fn MLI.Hypercube tensor clip (a_units c) (a_sizes c) Kmat u (set_nth m ym (set_nth cd yc x)) -
+  MLI.unit_fn MLI.Hypercube tensor clip (a_units c) (a_sizes c) Kmat u (set_nth cd yc x).
+Proof. exact lattice_assert_edgeworth_effect. Qed.
+Print Assumptions C12_lattice_assert_implies_edgeworth_effect.
+
+Example C12_lattice_edgeworth_example : la_ok ex_la /\ PLH.sizes_ok (a_sizes ex_la) /\
+  Forall (fun r => length r = a_units ex_la) [[1; 1]; [1; 1]; [2; 2]; [3; 3]] /\
+  assert_lattice_flat ex_la (concat [[1; 1]; [1; 1]; [2; 2]; [3; 3]]) 0 = true /\ In (0%nat, 1%nat, 1%Z) (a_edge ex_la).
+Proof. split; [exact ex_la_ok|]. split; [repeat constructor|]. split; [repeat constructor|].
+  split; [vm_compute; reflexivity|left; reflexivity]. Qed.
+
+(* any eps >= 0: the output is inside [output_min - eps, output_max + eps] *)
+Theorem C12_lattice_assert_eps_implies_bounded_function : forall c Kmat eps sc tensor clip u x,
+  la_ok c -> PLH.sizes_ok (a_sizes c) -> a_sizes c <> [] -> length Kmat = MLI.prodn (a_sizes c) ->
+  Forall (fun r => length r = a_units c) Kmat -> (u < a_units c)%nat -> 0 <= eps ->
+  assert_lattice_flat c (concat Kmat) eps = true -> PLH.ok_input clip (a_sizes c) x ->
+  (forall lo, a_min c = Some lo -> lo - eps <= MLI.unit_fn sc tensor clip (a_units c) (a_sizes c) Kmat u x) /\
+  (forall hi, a_max c = Some hi -> MLI.unit_fn sc tensor clip (a_units c) (a_sizes c) Kmat u x <= hi + eps).
+Proof. exact lattice_assert_eps_bounded. Qed.
+Print Assumptions C12_lattice_assert_eps_implies_bounded_function.
+
+(* satisfiable: 2 x 3 lattice, 2 units, both inputs monotone, bounds [0, 9] *)
+Example C12_lattice_meaning_example : cfg_valid am_lat /\ length am_K = MLI.prodn (l_sizes am_lat) /\
+  Forall (fun r => length r = l_units am_lat) am_K /\ (1 < l_units am_lat)%nat /\
+  assert_lattice (la_of am_lat) (of_list (l_shape am_lat) (concat am_K)) 0 = true /\
+  In 1%nat (mono_dims (l_monos am_lat)) /\
+  PLH.ok_input false (l_sizes am_lat) [1#2; 1#2] /\ PLH.ok_input false (l_sizes am_lat) (set_nth 1 (3#2) [1#2; 1#2]) /\
+  PLH.ok_input true (l_sizes am_lat) [5; -(1)].
+Proof. exact am_lat_hyps. Qed.
+
+(* ---------------- KroneckerFactoredLattice ---------------- *)
+(* kfl_cfg_of / kfl_params_of: the assert's configuration, kernel tensor
+   K [keypoint; unit; dim; term] and scale as the configuration and parameters
+   of the C07 model (MK.unpack is the same re-indexing from the nested list).
+   The assert does NOT check two things the function-level statements need:
+     kfl_weights_nonneg  with no bound or two bounds: the 1-D factors of every
+                         term with non-zero scale are >= 0 (with exactly one
+                         bound, kfl_one_sided, the assert checks it itself);
+     kfl_bias_fixed      the bias of a bounded layer has its fixed value.
+   With them a passing assert is feasibility in the sense of C03 ... *)
+Theorem C12_kfl_assert_implies_C03_feasible : forall c Sc K bias clip, kfl_cfg_ok c -> assert_kfl c Sc K 0 = true ->
+  (k_monos c = [] \/ kfl_one_sided c \/ kfl_weights_nonneg c Sc K) -> kfl_bias_fixed c bias ->
+  PMK.kfl_feasible (kfl_cfg_of c clip) (k_dims c) (kfl_params_of c Sc K bias).
+Proof. exact kfl_assert_premade_feasible. Qed.
+Print Assumptions C12_kfl_assert_implies_C03_feasible.
+
+(* ... and the unit function is non-decreasing along the monotone inputs for
+   every pair of in-range or clipped points (any bias), and within the bounds
+   on every in-range or clipped point (any signs of the weights) *)
+Theorem C12_kfl_assert_implies_monotone_bounded_function : forall c Sc K bias clip u,
+  kfl_cfg_ok c -> assert_kfl c Sc K 0 = true ->
+  (kfl_one_sided c \/ kfl_weights_nonneg c Sc K -> k_monos c <> [] ->
+   forall xs ys, PK.coords_le (kfl_mono_flags c) xs ys ->
+     clip = true \/ (PK.in_range (k_L c) xs /\ PK.in_range (k_L c) ys) ->
+     MK.unit_out (kfl_cfg_of c clip) (kfl_params_of c Sc K bias) u xs <=
+     MK.unit_out (kfl_cfg_of c clip) (kfl_params_of c Sc K bias) u ys) /\
+  (kfl_bias_fixed c bias -> length bias = k_units c -> (u < k_units c)%nat ->
+   forall xs, length xs = k_dims c -> clip = true \/ PK.in_range (k_L c) xs ->
+     (forall lo, k_min c = Some lo -> lo <= MK.unit_out (kfl_cfg_of c clip) (kfl_params_of c Sc K bias) u xs) /\
+     (forall hi, k_max c = Some hi -> MK.unit_out (kfl_cfg_of c clip) (kfl_params_of c Sc K bias) u xs <= hi)).
+Proof. intros c Sc K bias clip u Hc Hp. split.
+  - intros Hg Hn xs ys Hle Hr. exact (kfl_assert_monotone c Sc K bias clip u xs ys Hc Hp Hg Hn Hle Hr).
+  - intros Hb Hl Hu xs Hx Hr. exact (kfl_assert_bounded c Sc K bias clip u xs Hc Hp Hb Hl Hu Hx Hr). Qed.
+Print Assumptions C12_kfl_assert_implies_monotone_bounded_function.
+
+(* one monotone coordinate moved up, the others fixed *)
+Theorem C12_kfl_assert_implies_monotone_coordinate : forall c Sc K bias clip u xs d y,
+  kfl_cfg_ok c -> assert_kfl c Sc K 0 = true -> kfl_one_sided c \/ kfl_weights_nonneg c Sc K ->
+  (d < length (k_monos c))%nat -> nth d (k_monos c) 0%Z <> 0%Z -> length xs = k_dims c -> nth d xs 0 <= y ->
+  clip = true \/ (PK.in_range (k_L c) xs /\ PK.in_range (k_L c) (set_nth d y xs)) ->
+  MK.unit_out (kfl_cfg_of c clip) (kfl_params_of c Sc K bias) u xs <=
+  MK.unit_out (kfl_cfg_of c clip) (kfl_params_of c Sc K bias) u (set_nth d y xs).
+Proof. exact kfl_assert_monotone_coordinate. Qed.
+Print Assumptions C12_kfl_assert_implies_monotone_coordinate.
+
+(* the conversion is the C07 layout map, and the identity on a well-shaped scale *)
+Theorem C12_kfl_params_are_the_layer_parameters : forall c,
+  (forall k : list (list (list Q)),
+     kfl_kernel_of c (fun i => match i with [i; u; d; t] => nth t (nth (u * k_dims c + d) (nth i k []) []) 0 | _ => 0 end) =
+     MK.unpack (k_L c) (k_units c) (k_dims c) (k_terms c) k) /\
+  (forall Sc, length Sc = k_units c -> Forall (fun r => length r = k_terms c) Sc -> kfl_scale_of c Sc = Sc).
+Proof. intros c. split; [exact (kfl_kernel_of_unpack c)|exact (kfl_scale_of_id c)]. Qed.
+Print Assumptions C12_kfl_params_are_the_layer_parameters.
+
+(* FINDING (new, proposed number D72; reproduced on the implementation): without kfl_weights_nonneg
+   the implication is FALSE.  monotonicities (1, 1), lattice_sizes 2, one term
+   with scale 1 and 1-D factors (-1, 0), (-1, 0) - each increasing, but
+   negative -, no bounds or bounds (-1, 1): assert_constraints(eps = 0) passes
+   and f(0, 0) = 1 > 0 = f(1, 0).  The assert checks the order of the factors,
+   not the sign that the projection establishes by clipping at 0 first. *)
+Theorem C12_kfl_assert_alone_implies_monotone_refuted : forall b, b = (None, None) \/ b = (Some (-(1)), Some 1) ->
+  let c := am_kfl_bad (fst b) (snd b) in
+  kfl_cfg_ok c /\ assert_kfl c [[1]] am_kfl_bad_K 0 = true /\ kfl_bias_fixed c [0] /\
+  PK.coords_le (kfl_mono_flags c) [0; 0] [1; 0] /\ PK.in_range (k_L c) [0; 0] /\ PK.in_range (k_L c) [1; 0] /\
+  MK.unit_out (kfl_cfg_of c false) (kfl_params_of c [[1]] am_kfl_bad_K [0]) 0 [1; 0] <
+  MK.unit_out (kfl_cfg_of c false) (kfl_params_of c [[1]] am_kfl_bad_K [0]) 0 [0; 0].
+Proof. exact kfl_assert_not_monotone_refuted. Qed.
+Print Assumptions C12_kfl_assert_alone_implies_monotone_refuted.
+
+(* satisfiable: L = 2, two monotone inputs, terms with scales +1 / -1, bounds [0, 2] *)
+Example C12_kfl_meaning_example : kfl_cfg_ok ex_kfl /\ assert_kfl ex_kfl [[1; - (1)]] am_kfl_K 0 = true /\
+  kfl_weights_nonneg ex_kfl [[1; - (1)]] am_kfl_K /\ kfl_bias_fixed ex_kfl [1] /\
+  PK.coords_le (kfl_mono_flags ex_kfl) [0; 1#2] [1#2; 1] /\ PK.in_range (k_L ex_kfl) [0; 1#2] /\ PK.in_range (k_L ex_kfl) [1#2; 1].
+Proof. exact am_kfl_hyps. Qed.
+
+(* ---------------- Linear ---------------- *)
+(* unit u of the layer is MLE.lin_unit (column u K) bias_u bounds (C20_formula).
+   A passing assert (eps = 0) gives the sign hypotheses of C20_monotone, hence:
+   monotone for EVERY pair of points with y above x in the increasing inputs,
+   below in the decreasing ones, equal in the others (lin_dir_le) ... *)
+Theorem C12_linear_assert_implies_monotone_function : forall c K u, (u < li_units c)%nat -> assert_linear c K 0 = true ->
+  forall b bs x y, length x = length K -> length y = length K -> lin_dir_le (li_monos c) (length K) x y ->
+  MLE.lin_unit (column u K) b bs x <= MLE.lin_unit (column u K) b bs y.
+Proof. exact lin_assert_monotone. Qed.
+Print Assumptions C12_linear_assert_implies_monotone_function.
+
+Theorem C12_linear_assert_implies_monotone_coordinate : forall c K u, (u < li_units c)%nat -> assert_linear c K 0 = true ->
+  forall b bs x i v v', length x = length K -> (i < length K)%nat -> v <= v' ->
+  (nth i (li_monos c) 0%Z = 1%Z ->
+     MLE.lin_unit (column u K) b bs (set_nth i v x) <= MLE.lin_unit (column u K) b bs (set_nth i v' x)) /\
+  (nth i (li_monos c) 0%Z = (-1)%Z ->
+     MLE.lin_unit (column u K) b bs (set_nth i v' x) <= MLE.lin_unit (column u K) b bs (set_nth i v x)).
+Proof. exact lin_assert_monotone_coordinate. Qed.
+Print Assumptions C12_linear_assert_implies_monotone_coordinate.
+
+(* ... the hypothesis and therefore the conclusion of C20_monotonic_dominance_effect
+   for every configured pair (unclipped inputs) ... *)
+Theorem C12_linear_assert_implies_monotonic_dominance_effect : forall c K u, (u < li_units c)%nat -> assert_linear c K 0 = true ->
+  forall b bs x dom weak d, In (dom, weak) (li_mdom c) ->
+  (dom < length K)%nat -> (weak < length K)%nat -> length bs = length K -> length x = length K ->
+  nth dom bs PLE.nob = (None, None) -> nth weak bs PLE.nob = (None, None) -> 0 <= d ->
+  kat K weak u <= kat K dom u /\
+  MLE.lin_unit (column u K) b bs (set_nth weak (nth weak x 0 + d) x) - MLE.lin_unit (column u K) b bs x <=
+  MLE.lin_unit (column u K) b bs (set_nth dom (nth dom x 0 + d) x) - MLE.lin_unit (column u K) b bs x.
+Proof. exact lin_assert_mdom_effect. Qed.
+Print Assumptions C12_linear_assert_implies_monotonic_dominance_effect.
+
+(* ... and of C20_range_dominance_effect, signed by the direction of each input
+   (lin_sign = -1 for a decreasing input, else 1; [ld, hd], [lw, hw] are the
+   layer's own input bounds, the ones the assert scales by) *)
+Theorem C12_linear_assert_implies_range_dominance_effect : forall c K u, (u < li_units c)%nat -> assert_linear c K 0 = true ->
+  forall b bs x dom weak ld hd lw hw, In (dom, weak) (li_rdom c) ->
+  (dom < length K)%nat -> (weak < length K)%nat -> length bs = length K -> length x = length K ->
+  nth dom (zip_bounds (li_min c) (li_max c)) (None, None) = (Some ld, Some hd) ->
+  nth weak (zip_bounds (li_min c) (li_max c)) (None, None) = (Some lw, Some hw) ->
+  nth dom bs PLE.nob = (Some ld, Some hd) -> nth weak bs PLE.nob = (Some lw, Some hw) -> ld <= hd -> lw <= hw ->
+  lin_sign c weak * ((hw - lw) * kat K weak u) <= lin_sign c dom * ((hd - ld) * kat K dom u) /\
+  lin_sign c weak * (MLE.lin_unit (column u K) b bs (set_nth weak hw x) - MLE.lin_unit (column u K) b bs (set_nth weak lw x)) <=
+  lin_sign c dom * (MLE.lin_unit (column u K) b bs (set_nth dom hd x) - MLE.lin_unit (column u K) b bs (set_nth dom ld x)).
+Proof. exact lin_assert_rdom_effect. Qed.
+Print Assumptions C12_linear_assert_implies_range_dominance_effect.
+
+(* the norm test is strict (|norm - 1| < eps): at eps = 0 a normalised layer
+   passes ONLY through the numerically-zero-column escape *)
+Theorem C12_linear_assert_zero_eps_norm_only_zero_column : forall c K u, (u < li_units c)%nat -> assert_linear c K 0 = true ->
+  forall ord, li_norm c = Some ord ->
+  (ord = 1%nat -> qsum (map qabs (unit_col K u)) < norm_eps) /\
+  (ord <> 1%nat -> qsum (map (fun w => w * w) (unit_col K u)) < norm_eps * norm_eps).
+Proof. exact lin_assert_zero_eps_norm_escape. Qed.
+Print Assumptions C12_linear_assert_zero_eps_norm_only_zero_column.
+
+(* normalization order 1, all inputs increasing: the non-strict checks pass at
+   eps = 0 (lin_without_norm), the whole assert at eps.  Then the weights are
+   >= 0, their sum s is within eps of 1 - or below 1e-8: the zero-column escape
+   of the assert, cf. C20_projected_weighted_average_zero_refuted - and
+   output - bias is in [lo * s, hi * s] for any lo / hi bounding the clipped
+   inputs; with s == 1 that is the weighted average of C20_weighted_average *)
+Theorem C12_linear_assert_implies_weighted_average : forall c K eps u b bs x lo hi, (u < li_units c)%nat -> 0 <= eps ->
+  li_norm c = Some 1%nat -> (forall i, (i < length K)%nat -> nth i (li_monos c) 0%Z = 1%Z) ->
+  assert_linear (lin_without_norm c) K 0 = true -> assert_linear c K eps = true ->
+  length bs = length K -> length x = length K -> (forall v, In v (PLE.clipped bs x) -> lo <= v /\ v <= hi) ->
+  let k := column u K in let s := qsum k in
+  (forall q, In q k -> 0 <= q) /\ (qabs (s - 1) < eps \/ s < norm_eps) /\
+  lo * s <= MLE.lin_unit k b bs x - b /\ MLE.lin_unit k b bs x - b <= hi * s /\
+  (s == 1 -> lo <= MLE.lin_unit k b bs x - b /\ MLE.lin_unit k b bs x - b <= hi).
+Proof. exact lin_assert_weighted_average. Qed.
+Print Assumptions C12_linear_assert_implies_weighted_average.
+
+(* satisfiable (and at eps = 0 the same exactly-normalised layer is rejected) *)
+Example C12_linear_meaning_example : assert_linear (lin_without_norm am_lin) am_lin_K 0 = true /\
+  assert_linear am_lin am_lin_K (1#1000) = true /\ assert_linear am_lin am_lin_K 0 = false /\
+  (forall i, (i < length am_lin_K)%nat -> nth i (li_monos am_lin) 0%Z = 1%Z) /\
+  lin_dir_le (li_monos am_lin) (length am_lin_K) [0; 3; 1] [1; 3; 2] /\
+  nth 0 (zip_bounds (li_min am_lin) (li_max am_lin)) (None, None) = (Some 0, Some 2) /\
+  nth 1 (zip_bounds (li_min am_lin) (li_max am_lin)) (None, None) = (Some 0, Some 1) /\
+  qsum (column 1 am_lin_K) == 1.
+Proof. destruct am_lin_hyps as (H1 & H2 & H3). split; [exact H1|]. split; [exact H2|]. split; [exact am_lin_zero_eps_rejected|exact H3]. Qed.
+
+(* ---------------- PWLCalibration ---------------- *)
+(* L: the built layer (fixed or learned keypoints, cyclic or not) with the
+   asserted kernel; PPE.unit_fn L u is what call() computes for unit u (C05).
+   A passing assert (eps = 0) means: monotone for EVERY pair of inputs, inside
+   the bounds at EVERY input, constant outside the keypoint range, a clamped
+   bound is attained, the learned missing output is inside the bounds. *)
+Theorem C12_pwl_assert_implies_monotone_bounded_function : forall c L e u,
+  MPE.p_kernel L <> [] -> MPE.p_units L = pa_units (pl_cfg c) ->
+  MPE.p_cyclic L = pl_cyclic c -> (u < MPE.p_units L)%nat ->
+  PPE.segments (MPE.unit_lefts L u) (MPE.unit_lens L u) e ->
+  length (column u (MPE.bias_and_heights L)) = S (length (MPE.unit_lefts L u)) ->
+  assert_pwl_layer c (MPE.p_kernel L) 0 = true ->
+  (pa_mono (pl_cfg c) = 1%Z -> forall x y, x <= y -> PPE.unit_fn L u x <= PPE.unit_fn L u y) /\
+  (pa_mono (pl_cfg c) = (-1)%Z -> forall x y, x <= y -> PPE.unit_fn L u y <= PPE.unit_fn L u x) /\
+  (forall x, (forall lo, pa_min (pl_cfg c) = Some lo -> lo <= PPE.unit_fn L u x) /\
+             (forall hi, pa_max (pl_cfg c) = Some hi -> PPE.unit_fn L u x <= hi)) /\
+  (forall x, (x <= hd e (MPE.unit_lefts L u) -> PPE.unit_fn L u x == PPE.unit_fn L u (hd e (MPE.unit_lefts L u))) /\
+             (e <= x -> PPE.unit_fn L u x == PPE.unit_fn L u e)) /\
+  (forall lo, pa_min (pl_cfg c) = Some lo -> pa_clamp_min (pl_cfg c) = true -> exists x, PPE.unit_fn L u x <= lo) /\
+  (forall hi, pa_max (pl_cfg c) = Some hi -> pa_clamp_max (pl_cfg c) = true -> exists x, hi <= PPE.unit_fn L u x) /\
+  (forall mo, pl_missing c = Some mo ->
+     (forall lo, pa_min (pl_cfg c) = Some lo -> lo <= nth u mo 0) /\ (forall hi, pa_max (pl_cfg c) = Some hi -> nth u mo 0 <= hi)).
+Proof. exact pwl_assert_meaning. Qed.
+Print Assumptions C12_pwl_assert_implies_monotone_bounded_function.
+
+Theorem C12_pwl_assert_eps_implies_bounded_function : forall c L eps e u x,
+  MPE.p_kernel L <> [] -> MPE.p_units L = pa_units (pl_cfg c) ->
+  MPE.p_cyclic L = pl_cyclic c -> (u < MPE.p_units L)%nat -> 0 <= eps ->
+  PPE.segments (MPE.unit_lefts L u) (MPE.unit_lens L u) e ->
+  length (column u (MPE.bias_and_heights L)) = S (length (MPE.unit_lefts L u)) ->
+  assert_pwl_layer c (MPE.p_kernel L) eps = true ->
+  (forall lo, pa_min (pl_cfg c) = Some lo -> lo - eps <= PPE.unit_fn L u x) /\
+  (forall hi, pa_max (pl_cfg c) = Some hi -> PPE.unit_fn L u x <= hi + eps).
+Proof. exact pwl_assert_eps_bounded. Qed.
+Print Assumptions C12_pwl_assert_eps_implies_bounded_function.
+
+Example C12_pwl_meaning_example : MPE.p_kernel am_pwl_layer <> [] /\ MPE.p_units am_pwl_layer = pa_units (pl_cfg am_pwl_cfg) /\
+  MPE.p_cyclic am_pwl_layer = pl_cyclic am_pwl_cfg /\ (1 < MPE.p_units am_pwl_layer)%nat /\
+  PPE.segments (MPE.unit_lefts am_pwl_layer 1) (MPE.unit_lens am_pwl_layer 1) 3 /\
+  length (column 1 (MPE.bias_and_heights am_pwl_layer)) = S (length (MPE.unit_lefts am_pwl_layer 1)) /\
+  assert_pwl_layer am_pwl_cfg (MPE.p_kernel am_pwl_layer) 0 = true /\ pa_mono (pl_cfg am_pwl_cfg) = 1%Z.
+Proof. exact am_pwl_hyps. Qed.
+
+(* ---------------- CategoricalCalibration ---------------- *)
+(* PPE.cat_index L row u: the (default-replaced) category unit u looks up.  Every
+   bucket's output is inside the bounds, and for every configured pair (i, j)
+   the output on category i is <= the output on category j. *)
+Theorem C12_categorical_assert_implies_ordered_bounded_function : forall c L u,
+  MCE.c_kernel L <> [] -> MCE.c_units L = ca_units c ->
+  MCE.c_buckets L = length (MCE.c_kernel L) -> (u < ca_units c)%nat ->
+  assert_categorical c (MCE.c_kernel L) 0 = true ->
+  (forall row b, (PPE.col_of (length row) u < length row)%nat -> (MCE.c_units L = 1%nat -> length row = 1%nat) ->
+     PPE.cat_index L row u = Z.of_nat b -> (b < MCE.c_buckets L)%nat ->
+     (forall lo, ca_min c = Some lo -> lo <= nth u (MCE.cat_row L row) 0) /\
+     (forall hi, ca_max c = Some hi -> nth u (MCE.cat_row L row) 0 <= hi)) /\
+  (forall i j row row', In (i, j) (ca_pairs c) -> (i < MCE.c_buckets L)%nat -> (j < MCE.c_buckets L)%nat ->
+     (PPE.col_of (length row) u < length row)%nat -> (MCE.c_units L = 1%nat -> length row = 1%nat) ->
+     (PPE.col_of (length row') u < length row')%nat -> (MCE.c_units L = 1%nat -> length row' = 1%nat) ->
+     PPE.cat_index L row u = Z.of_nat i -> PPE.cat_index L row' u = Z.of_nat j ->
+     nth u (MCE.cat_row L row) 0 <= nth u (MCE.cat_row L row') 0).
+Proof. exact cat_assert_meaning. Qed.
+Print Assumptions C12_categorical_assert_implies_ordered_bounded_function.
+
+Example C12_categorical_meaning_example : MCE.c_kernel am_cat_layer <> [] /\ MCE.c_units am_cat_layer = ca_units ex_cat /\
+  MCE.c_buckets am_cat_layer = length (MCE.c_kernel am_cat_layer) /\ (0 < ca_units ex_cat)%nat /\
+  assert_categorical ex_cat (MCE.c_kernel am_cat_layer) 0 = true /\ In (1%nat, 2%nat) (ca_pairs ex_cat) /\
+  PPE.cat_index am_cat_layer [1] 0 = Z.of_nat 1 /\ PPE.cat_index am_cat_layer [-(1)] 0 = Z.of_nat 2.
+Proof. exact am_cat_hyps. Qed.
